@@ -1,13 +1,338 @@
 """Leaf specs of property C05 (fold index arithmetic of inference/crossvalsets.py, default
-fold counts of util/inference_util.py).  `np.floor(a / b)` and `int(a / b)` on naturals are
-translated natively by harness/py2lean.py (round 2; the local extension was removed)."""
+fold counts of util/inference_util.py, dispatch tests of inference/evaluate.py).
+
+Native py2lean leaves: right-hand sides of assignments (`np.floor(a / b)`, `int(a / b)`, `%`) and
+the two default-k functions.
+
+Round 3: *derived* leaves.  The positions a fold tests, the guard of the enlarged folds, the
+`k <= 1` dispatch, the `assert`s that delimit the accepted calls, the index ranges of
+`sets_random`, the skip test of `crossval`, the noise-ceiling dispatch of `_internal_cv` and
+the guard of `bootstrap_crossval` are `if` / `assert` tests or arguments of array calls, not
+assignments py2lean can anchor.  For those this module first extracts, from the current source
+text (Python `ast`), the scalar expression / test and writes it as a tiny Python function into
+`harness/leaves/_C05_derived.py` (tests as `1 if <test> else 0`); py2lean then translates those
+functions as usual.  Nothing is cached: the derived file is rewritten on every run.  Every
+derivation fails closed: an unexpected shape of the anchor yields a function calling
+`__underivable__`, which py2lean reports as an untranslatable leaf = broken obligation."""
+import ast
+import os
+
+SRC = os.environ.get('RSA_REPO_SRC', '/repo/src/rsatoolbox')
+HERE = os.path.dirname(os.path.abspath(__file__))
+DERIVED = os.path.join(HERE, '_C05_derived.py')
 
 _F = 'inference/crossvalsets.py'
 _U = 'util/inference_util.py'
+_E = 'inference/evaluate.py'
 
 
 def _nat(*names):
     return {n: 'Nat' for n in names}
+
+
+class Underivable(Exception):
+    pass
+
+
+def _func(path, name):
+    tree = ast.parse(open(os.path.join(SRC, path)).read())
+    for node in ast.walk(tree):
+        if isinstance(node, ast.FunctionDef) and node.name == name:
+            return node
+    raise Underivable(f'{path}: function {name} not found')
+
+
+def _u(node):
+    return ast.unparse(node)
+
+
+def _one(items, what):
+    items = list(items)
+    if len(items) != 1:
+        raise Underivable(f'expected exactly one {what}, found {len(items)}')
+    return items[0]
+
+
+def _group_loop(fn):
+    """the `for i_group in range(K):` loop of a k-fold generator -> (loop node, text of K)"""
+    loops = [n for n in fn.body if isinstance(n, ast.For) and isinstance(n.target, ast.Name)
+             and n.target.id == 'i_group']
+    loop = _one(loops, 'top-level `for i_group` loop')
+    it = loop.iter
+    if not (isinstance(it, ast.Call) and _u(it.func) == 'range' and len(it.args) == 1 and not it.keywords):
+        raise Underivable(f'loop range is `{_u(it)}`, not range(k)')
+    if loop.orelse:
+        raise Underivable('for-else on the group loop')
+    return loop, _u(it.args[0])
+
+
+def _assign_to(stmts, target):
+    return [s for s in stmts if isinstance(s, ast.Assign) and len(s.targets) == 1
+            and isinstance(s.targets[0], ast.Name) and s.targets[0].id == target]
+
+
+def _all_assigns(node, target):
+    return [s for s in ast.walk(node) if isinstance(s, ast.Assign) and len(s.targets) == 1
+            and isinstance(s.targets[0], ast.Name) and s.targets[0].id == target]
+
+
+def _kfold_parts(func, sel):
+    """scalar pieces of the loop body of one k-fold generator.
+    -> dict(n_folds, lo, hi, guard, extra, nosplit, accept) of expression texts"""
+    fn = _func(_F, func)
+    loop, k_text = _group_loop(fn)
+    body = loop.body
+    # every write to test_idx inside the loop: the block, then (guarded) the appended position
+    writes = _all_assigns(loop, 'test_idx')
+    if len(writes) != 2:
+        raise Underivable(f'expected 2 assignments to test_idx in the loop, found {len(writes)}')
+    first = _one(_assign_to(body, 'test_idx'), 'unconditional assignment to test_idx')
+    if body.index(first) != 0:
+        raise Underivable('the block assignment is not the first statement of the loop')
+    call = first.value
+    if not (isinstance(call, ast.Call) and _u(call.func) == 'np.arange' and len(call.args) == 2
+            and not call.keywords):
+        raise Underivable(f'test_idx block is `{_u(call)}`, not np.arange(lo, hi)')
+    lo, hi = _u(call.args[0]), _u(call.args[1])
+    ifs = [s for s in body if isinstance(s, ast.If) and _all_assigns(s, 'test_idx')]
+    node = _one(ifs, '`if` that extends test_idx')
+    if node.orelse or len(node.body) != 1 or body.index(node) != 1:
+        raise Underivable('the `if` extending test_idx has an else / several statements / moved')
+    ext = node.body[0]
+    if not (isinstance(ext, ast.Assign) and _u(ext.targets[0]) == 'test_idx'
+            and isinstance(ext.value, ast.Call) and _u(ext.value.func) == 'np.concatenate'
+            and len(ext.value.args) == 1 and isinstance(ext.value.args[0], ast.Tuple)
+            and len(ext.value.args[0].elts) == 2 and _u(ext.value.args[0].elts[0]) == 'test_idx'
+            and isinstance(ext.value.args[0].elts[1], ast.List)
+            and len(ext.value.args[0].elts[1].elts) == 1):
+        raise Underivable(f'extension is `{_u(ext)}`, not np.concatenate((test_idx, [pos]))')
+    guard = _u(node.test)
+    extra = _u(ext.value.args[0].elts[1].elts[0])
+    # training positions: complement, or (behind a test) the test positions themselves
+    setdiff = f'np.setdiff1d(np.arange(len({sel})), test_idx)'
+    twrites = _all_assigns(loop, 'train_idx')
+    direct = _assign_to(body, 'train_idx')
+    if len(twrites) == 1 and len(direct) == 1:
+        if _u(direct[0].value) != setdiff:
+            raise Underivable(f'train_idx is `{_u(direct[0].value)}`, not the complement of test_idx')
+        nosplit = None
+        tpos = body.index(direct[0])
+    elif len(twrites) == 2 and not direct:
+        tif = _one([s for s in body if isinstance(s, ast.If) and _all_assigns(s, 'train_idx')],
+                   '`if` choosing train_idx')
+        if not (len(tif.body) == 1 and len(tif.orelse) == 1
+                and _u(tif.body[0]) == 'train_idx = test_idx'
+                and _u(tif.orelse[0]) == 'train_idx = ' + setdiff):
+            raise Underivable(f'unexpected train_idx dispatch `{_u(tif)[:120]}`')
+        nosplit = _u(tif.test)
+        tpos = body.index(tif)
+    else:
+        raise Underivable('unexpected assignments to train_idx')
+    if tpos != 2:
+        raise Underivable('train_idx is not computed right after test_idx is complete')
+    # later statements must not touch the positions again
+    for s in body[3:]:
+        for n in ast.walk(s):
+            if isinstance(n, ast.Name) and isinstance(n.ctx, ast.Store) and n.id in ('test_idx', 'train_idx'):
+                raise Underivable('positions are rewritten later in the loop')
+    # the values come from the positions by plain indexing
+    for tgt, idx in (('rdm_idx_test' if 'rdm' in sel else 'pattern_idx_test', 'test_idx'),
+                     ('rdm_idx_train' if 'rdm' in sel else 'pattern_idx_train', 'train_idx')):
+        a = _one(_assign_to(body, tgt), f'assignment to {tgt}')
+        if _u(a.value) != f'[{sel}[int(idx)] for idx in {idx}]':
+            raise Underivable(f'{tgt} is `{_u(a.value)}`')
+    asserts = [s for s in fn.body if isinstance(s, ast.Assert)]
+    a = _one(asserts, 'assert')
+    return {'n_folds': k_text, 'lo': lo, 'hi': hi, 'guard': guard, 'extra': extra,
+            'nosplit': nosplit, 'accept': _u(a.test)}
+
+
+def _bool(test):
+    return f'(1 if {test} else 0)'
+
+
+def _of_k_accept(func):
+    fn = _func(_F, func)
+    a = _one([s for s in fn.body if isinstance(s, ast.Assert)], 'assert')
+    return _bool(_u(a.test))
+
+
+def _random_parts(axis):
+    """sets_random, one axis ('rdm' / 'pattern'): -> dict(nosplit, test_hi, train_lo, train_hi, full)"""
+    fn = _func(_F, 'sets_random')
+    loop = _one([n for n in fn.body if isinstance(n, ast.For)], 'loop')
+    nvar, sel = f'n_{axis}', f'{axis}_select'
+    node = _one([s for s in loop.body if isinstance(s, ast.If) and _u(s.test).startswith(nvar + ' ')],
+                f'`if` on {nvar}')
+    if len(node.body) != 2 or len(node.orelse) != 2:
+        raise Underivable('unexpected shape of the index dispatch')
+
+    def pick(stmts, target):
+        a = _one(_assign_to(stmts, target), f'assignment to {target}')
+        c = a.value
+        if not (isinstance(c, ast.Call) and _u(c.func) == 'np.arange' and not c.keywords
+                and len(c.args) in (1, 2)):
+            raise Underivable(f'{target} is `{_u(c)}`, not np.arange')
+        return ['0'] + [_u(c.args[0])] if len(c.args) == 1 else [_u(c.args[0]), _u(c.args[1])]
+    full_tr, full_te = pick(node.body, 'train_idx'), pick(node.body, 'test_idx')
+    if full_tr != full_te or full_tr[0] != '0':
+        raise Underivable('the unsplit branch does not use the same full range for both sides')
+    te, tr = pick(node.orelse, 'test_idx'), pick(node.orelse, 'train_idx')
+    if te[0] != '0':
+        raise Underivable('test positions do not start at 0')
+    for tgt, idx in ((f'{axis}_idx_test', 'test_idx'), (f'{axis}_idx_train', 'train_idx')):
+        a = _one(_assign_to(loop.body, tgt), f'assignment to {tgt}')
+        if _u(a.value) != f'[{sel}[int(idx)] for idx in {idx}]':
+            raise Underivable(f'{tgt} is `{_u(a.value)}`')
+    return {'nosplit': _bool(_u(node.test)), 'test_hi': te[1], 'train_lo': tr[0], 'train_hi': tr[1],
+            'full': full_tr[1]}
+
+
+def _crossval_skip():
+    fn = _func(_E, 'crossval')
+    loop = _one([n for n in fn.body if isinstance(n, ast.For)], 'loop')
+    if _u(loop.target) != '(i, train)' or _u(loop.iter) != 'enumerate(train_set)':
+        raise Underivable(f'loop header `for {_u(loop.target)} in {_u(loop.iter)}`')
+    if _u(loop.body[0]) != 'test = test_set[i]':
+        raise Underivable(f'test set is chosen by `{_u(loop.body[0])}`')
+    node = loop.body[1]
+    if not (isinstance(node, ast.If) and 'np.nan' in _u(node.body[0])):
+        raise Underivable('skip test not found')
+    return _bool(_u(node.test))
+
+
+def _crossval_asserts():
+    fn = _func(_E, 'crossval')
+    a = [s for s in fn.body if isinstance(s, ast.Assert)]
+    if len(a) != 1 or _u(a[0].test) != 'len(train_set) == len(test_set)':
+        raise Underivable('length assertion of crossval changed')
+    node = _one([s for s in fn.body if isinstance(s, ast.If) and _u(s.test) == 'ceil_set is not None'
+                 and len(s.body) == 1 and isinstance(s.body[0], ast.Assert)], 'ceil length assertion')
+    if _u(node.body[0].test) != 'len(ceil_set) == len(test_set)':
+        raise Underivable('ceil length assertion of crossval changed')
+    return _bool('len_train_set == len_test_set'), _bool('len_ceil_set == len_test_set')
+
+
+def _icv_dispatch():
+    fn = _func(_E, '_internal_cv')
+    node = _one([s for s in fn.body if isinstance(s, ast.If)], '`if`')
+    if 'cv_noise_ceiling' not in _u(node.body[0]) or 'boot_noise_ceiling' not in _u(node.orelse[0]):
+        raise Underivable('noise ceiling dispatch changed')
+    return _bool(_u(node.test))
+
+
+def _bootcv_guard():
+    fn = _func(_E, 'bootstrap_crossval')
+    hits = [n for n in ast.walk(fn) if isinstance(n, ast.If) and '_internal_cv' in _u(n)
+            and 'np.unique(rdm_idx)' in _u(n.test)]
+    node = _one(hits, 'guard of the cross-validation of one sample')
+    t = _u(node.test)
+    for old, new in (('len(np.unique(rdm_idx))', 'n_rdm_groups'), ('len(np.unique(pattern_idx))', 'n_pattern_groups')):
+        if old not in t:
+            raise Underivable(f'`{old}` not in the guard')
+        t = t.replace(old, new)
+    return _bool(t)
+
+
+def _cv_nc_pairing():
+    """cv_noise_ceiling pairs ceil_set[i] with test_set[i] -> the offset (0) of the two subscripts"""
+    fn = _func('inference/noise_ceiling.py', 'cv_noise_ceiling')
+    loop = _one([n for n in fn.body if isinstance(n, ast.For)], 'loop')
+    if _u(loop.target) != 'i' or _u(loop.iter) != 'range(len(ceil_set))':
+        raise Underivable(f'loop header `for {_u(loop.target)} in {_u(loop.iter)}`')
+    tr = _one(_assign_to(loop.body, 'train'), 'assignment to train')
+    te = _one(_assign_to(loop.body, 'test'), 'assignment to test')
+    for a, base in ((tr, 'ceil_set'), (te, 'test_set')):
+        if not (isinstance(a.value, ast.Subscript) and _u(a.value.value) == base):
+            raise Underivable(f'`{_u(a)}`')
+    return _u(tr.value.slice), _u(te.value.slice)
+
+
+_KF = [('KFold', 'sets_k_fold', 'rdm_select'), ('KFoldRdm', 'sets_k_fold_rdm', 'rdm_select'),
+       ('KFoldPattern', 'sets_k_fold_pattern', 'pattern_select')]
+
+
+def _derive():
+    out = ['# DERIVED by harness/leaves/C05.py from the source tree under check - do not edit', '']
+    specs = []
+
+    def emit(name, lean_name, params, body_fn, types=None, ret='Nat'):
+        try:
+            body = body_fn()
+        except Exception as exc:  # noqa: BLE001  (fail closed: any surprise = underivable)
+            body = '__underivable__(' + repr(str(exc)) + ')'
+        out.append(f'def {name}({", ".join(params)}):')
+        out.append(f'    return {body}')
+        out.append('')
+        specs.append(dict(name=lean_name, file=DERIVED, func=name, kind='func',
+                          params=types or _nat(*params), ret=ret))
+
+    for tag, func, sel in _KF:
+        cache = {}
+
+        def parts(func=func, sel=sel, cache=cache):
+            if 'v' not in cache:
+                try:
+                    cache['v'] = _kfold_parts(func, sel)
+                except Exception as exc:  # noqa: BLE001
+                    cache['v'] = exc
+            if isinstance(cache['v'], Exception):
+                raise cache['v']
+            return cache['v']
+        ln = f'len_{sel}'
+        low = tag[0].lower() + tag[1:]
+        # names of the local variables as the source spells them
+        kname = 'k' if func == 'sets_k_fold_pattern' else 'k_rdm'
+        gs = 'group_size' if func == 'sets_k_fold_pattern' else 'group_size_rdm'
+        ad = 'additional_patterns' if func == 'sets_k_fold_pattern' else 'additional_rdms'
+        emit(f'n_folds_{low}', f'nFolds{tag}', [kname], lambda p=parts: p()['n_folds'])
+        emit(f'block_lo_{low}', f'blockLo{tag}', ['i_group', gs], lambda p=parts: p()['lo'])
+        emit(f'block_hi_{low}', f'blockHi{tag}', ['i_group', gs], lambda p=parts: p()['hi'])
+        emit(f'extra_guard_{low}', f'extraGuard{tag}', ['i_group', ad], lambda p=parts: _bool(p()['guard']))
+        emit(f'extra_pos_{low}', f'extraPos{tag}', [ln, 'i_group'], lambda p=parts: p()['extra'])
+        emit(f'no_split_{low}', f'noSplit{tag}', [kname],
+             lambda p=parts: '0' if p()['nosplit'] is None else _bool(p()['nosplit']))
+        emit(f'accept_{low}', f'accept{tag}', [kname, ln], lambda p=parts: _bool(p()['accept']))
+
+    for tag, func, sel in (('Rdm', 'sets_of_k_rdm', 'rdm_select'), ('Pattern', 'sets_of_k_pattern', 'pattern_select')):
+        emit(f'accept_of_k_{tag.lower()}', f'acceptOfK{tag}', ['k', f'len_{sel}'],
+             lambda func=func: _of_k_accept(func), types={'k': 'A', f'len_{sel}': 'A'})
+
+    for axis, tag in (('rdm', 'Rdm'), ('pattern', 'Pattern')):
+        cache = {}
+
+        def rparts(axis=axis, cache=cache):
+            if 'v' not in cache:
+                try:
+                    cache['v'] = _random_parts(axis)
+                except Exception as exc:  # noqa: BLE001
+                    cache['v'] = exc
+            if isinstance(cache['v'], Exception):
+                raise cache['v']
+            return cache['v']
+        n, ln = f'n_{axis}', f'len_{axis}_select'
+        emit(f'random_no_split_{axis}', f'randomNoSplit{tag}', [n], lambda p=rparts: p()['nosplit'])
+        emit(f'random_test_hi_{axis}', f'randomTestHi{tag}', [n], lambda p=rparts: p()['test_hi'])
+        emit(f'random_train_lo_{axis}', f'randomTrainLo{tag}', [n], lambda p=rparts: p()['train_lo'])
+        emit(f'random_train_hi_{axis}', f'randomTrainHi{tag}', [ln], lambda p=rparts: p()['train_hi'])
+        emit(f'random_full_{axis}', f'randomFull{tag}', [ln], lambda p=rparts: p()['full'])
+
+    emit('cv_skip', 'cvSkip', ['train_0_n_rdm', 'test_0_n_rdm', 'train_0_n_cond', 'test_0_n_cond'],
+         _crossval_skip)
+    emit('cv_len_ok', 'cvLenOk', ['len_train_set', 'len_test_set'], lambda: _crossval_asserts()[0])
+    emit('cv_ceil_len_ok', 'cvCeilLenOk', ['len_ceil_set', 'len_test_set'], lambda: _crossval_asserts()[1])
+    emit('icv_cv_nc', 'icvUsesCvNc', ['k_rdm', 'k_pattern'], _icv_dispatch)
+    emit('bootcv_guard', 'bootcvGuard', ['n_rdm_groups', 'k_rdm', 'n_pattern_groups', 'k_pattern'],
+         _bootcv_guard)
+    emit('nc_ceil_index', 'ncCeilIndex', ['i'], lambda: _cv_nc_pairing()[0])
+    emit('nc_test_index', 'ncTestIndex', ['i'], lambda: _cv_nc_pairing()[1])
+
+    text = '\n'.join(out)
+    if not (os.path.exists(DERIVED) and open(DERIVED).read() == text):
+        with open(DERIVED + '.tmp', 'w') as f:
+            f.write(text)
+        os.replace(DERIVED + '.tmp', DERIVED)
+    return specs
 
 
 LEAVES = [
@@ -45,4 +370,4 @@ LEAVES = [
          params={'n_pattern': 'A'}, ret='Int'),
     dict(name='defaultKRdmReal', file=_U, func='default_k_rdm', kind='func',
          params={'n_rdm': 'A'}, ret='Int'),
-]
+] + _derive()
